@@ -1,22 +1,43 @@
 ID = 'C05'
 PARSE = '_ZN5phosg4JSON5parseERNS_12StringReaderEb'
-CUTS = [r'^_ZNSt7__cxx119to_stringEm$', r'^_ZStplIcSt11char_traitsIcESaIcEENSt7__cxx1112basic_stringIT_T0_T1_EEPKS5_OS8_$']
+SKIPWS = '_ZN5phosgL28skip_whitespace_and_commentsERNS_12StringReaderEb'
+# std::variant<...>::_M_reset visitor = the recursive part of ~JSON (list/dict members are JSON objects again)
+RESET = '_ZSt10__do_visitIvZNSt8__detail9__variant16_Variant_storageILb0EJDnbldNSt7__cxx1112basic_stringIcSt11char_traitsIcESaIcEEESt6vectorISt10unique_ptrIN5phosg4JSONESt14default_deleteISC_EESaISF_EESt13unordered_mapIS8_SF_vvvEEE8_M_resetEvEUlOT_E_JRSt7variantIJDnbldS8_SH_SJ_EEEEDcOT0_DpOT1_'
+REALLOC = '_ZNSt6vectorISt10unique_ptrIN5phosg4JSONESt14default_deleteIS2_EESaIS5_EE17_M_realloc_insertIJPS2_EEEvN9__gnu_cxx17__normal_iteratorIPS5_S7_EEDpOT_'
+# message builders of thrown exceptions (text never influences results): cut out of the generated C, bodies in json_cuts.h
+CUTS = [r'^_ZNSt7__cxx119to_stringEm$', r'^_ZStplIcSt11char_traitsIcESaIcEENSt7__cxx1112basic_stringIT_T0_T1_EEPKS5_OS8_$',
+        r'^_ZNSt7__cxx1112basic_stringIcSt11char_traitsIcESaIcEEC2IS3_EEPKcRKS3_$', r'^_ZN5phosg13string_printfB5cxx11EPKcz$']
 UNITS = {'json': dict(wrap='wrap.cc', shim=True, new_block=96, cxxflags=['-DVERIF_UMAP_CAP=2'], cuts=CUTS)}
 BOUNDS = ''
 STUBS = []
 OUTSIDE = []
 ASSUMPTIONS = []
 
+
+def parse_unwindset(L, NB, elems=None):
+    """global --unwind 8 covers the constant 7-way std::variant index loops; the data-dependent loops get exact bounds:
+    recursion depth of parse() and of ~JSON = NB+1 (each level consumes one '[' or '{'), scanning loops <= L+1 bytes,
+    exponent loops <= 9 (harness bound), container member loops <= elems"""
+    if elems is None:
+        elems = max(1, (L - 1) // 2) if NB else 0
+    u = ['%s:%d' % (PARSE, NB + 1), '%s:%d' % (RESET, NB + 1)]
+    for k in range(0, 9):
+        u.append('%s.%d:%d' % (PARSE, k, L + 2))
+    u += ['%s.9:11' % PARSE, '%s.10:11' % PARSE]
+    u += ['%s.0:%d' % (SKIPWS, L + 2), 'verif_memcpy_loop.0:%d' % (L + 2), 'verif_memset_loop.0:%d' % (L + 2), 'memcmp.0:7']
+    u += ['%s.0:%d' % (RESET, elems + 2), '%s.1:%d' % (RESET, elems + 2), '%s.0:%d' % (REALLOC, elems + 2), '%s.1:%d' % (REALLOC, elems + 2)]
+    return ','.join(u)
+
+
 def queries(tier):
     qs = []
     for L in range(0, 7):
-        qs.append(dict(name='skipws_len%d' % L, unit='json', harness='h_skipws.c', defs={'LEN': L}, unwind=L + 3, timeout=300, mem_gb=6,
+        qs.append(dict(name='skipws_len%d' % L, unit='json', harness='h_skipws.c', defs={'LEN': L}, unwind=L + 3, timeout=300, mem_gb=3,
                        desc='skip_whitespace_and_comments on %d symbolic bytes, symbolic mode: no exception, stops where the reference scanner stops' % L,
                        bounds='input length == %d, all byte values' % L))
-    for L in (1, 2, 3, 4):
-        for C in range(5):
-          for NB in (0, 1, 2):
-            qs.append(dict(name='probe_c%d_len%d_nb%d' % (C, L, NB), unit='json', harness='h_probe.c', defs={'LEN': L, 'CLASS': C, 'NB': NB}, unwind=L + 3,
-                           unwindset='%s:%d' % (PARSE, NB + 1), object_bits=12, timeout=900, mem_gb=10,
-                       desc='probe', bounds=''))
+    for L in (1, 2, 3):
+        for NB in (0, 1):
+            qs.append(dict(name='total_len%d_nb%d' % (L, NB), unit='json', harness='h_probe.c', defs={'LEN': L, 'NB': NB}, unwind=8,
+                           unwindset=parse_unwindset(L, NB), object_bits=12, timeout=1500, mem_gb=10,
+                           desc='parse', bounds=''))
     return qs
